@@ -198,8 +198,8 @@ func (P *Program) contractFor(f *ssa.Function) *FuncInfo {
 
 func (vc *VC) havocAll(st *State) {
 	for name := range vc.heapSort {
-		if strings.HasPrefix(name, "iter@") {
-			continue
+		if strings.HasPrefix(name, "iter@") || strings.HasPrefix(name, "Local_") {
+			continue // range iterators and non-escaping locals cannot be reached by a callee
 		}
 		vc.havocHeap(st, name)
 	}
@@ -237,8 +237,12 @@ func (vc *VC) call(in ssa.Instruction, c *ssa.CallCommon, st *State, reach Term)
 		if pureStdlib[calleeName(f)] {
 			vc.assume("assumed pure and total (external): " + calleeName(f))
 			r := vc.freshTyped(st, "call", rt, reach)
-			if nonNilResult[calleeName(f)] {
-				vc.addAssume(reach, not(app("(_ is dnil)", r.t)))
+			if nonNilResult[calleeName(f)] && r.tuple == nil {
+				if isInterface(rt) {
+					vc.addAssume(reach, not(app("(_ is dnil)", r.t)))
+				} else {
+					vc.addAssume(reach, not(eq(r.t, "0")))
+				}
 				vc.assume("assumed non-nil result (external): " + calleeName(f))
 			}
 			return r
@@ -511,7 +515,7 @@ func (vc *VC) frameCheck(st *State, reach Term, pos token.Pos) {
 		}
 	}
 	for name, sort := range vc.heapSort {
-		if name == "alloc" || strings.HasPrefix(name, "iter@") {
+		if name == "alloc" || strings.HasPrefix(name, "iter@") || strings.HasPrefix(name, "Local_") {
 			continue
 		}
 		cur := vc.heapGet(st, name, sort)
